@@ -1,6 +1,7 @@
 package chainh
 
 import (
+	"time"
 	"errors"
 	"fmt"
 	"strconv"
@@ -28,6 +29,7 @@ type FaultRepo struct {
 	// the same call that was written nevertheless is a partial write.
 	Row  bool
 	Exec func(q string) error // raw SQL on the stack's database
+	Hold func() (release func(), err error) // opens a second connection with a read cursor on headers (busy mode)
 }
 
 // Arm prepares a fault for the next operation ("none", "kill@k", "err@k").
@@ -49,6 +51,29 @@ func (f *FaultRepo) write(name string) error {
 		return errors.New("verif: injected storage failure")
 	}
 	return nil
+}
+
+// Busy mode ("busy@k"): the armed write is executed for real while ANOTHER connection holds an open read cursor on the
+// table, so that the write's COMMIT fails (SQLITE_BUSY after the driver's busy timeout).  A write that could not be
+// committed has failed: the outcome must equal that of "err@k".
+func (f *FaultRepo) withBusyReader(name string, real func() error) error {
+	f.Writes++
+	f.Calls = append(f.Calls, name)
+	if f.Hold == nil {
+		panic("HARNESS-ERROR: busy fault without a reader")
+	}
+	release, err := f.Hold()
+	if err != nil {
+		panic("HARNESS-ERROR: cannot open the blocking reader: " + err.Error())
+	}
+	t0 := time.Now()
+	werr := real()
+	release()
+	if werr == nil && time.Since(t0) < 2*time.Second {
+		// the driver did not even wait for the lock: the reader was not in the way, nothing was injected
+		panic("HARNESS-ERROR: the blocking reader did not block the write")
+	}
+	return werr // what the repository itself reports for a write whose commit failed
 }
 
 // rowFault reports whether the write now starting is the armed one and must be run in row-level mode.
@@ -79,6 +104,9 @@ func (f *FaultRepo) withRowTrigger(name, event, col, hash string, real func() er
 
 // AddHeaderToDatabase is a write boundary.
 func (f *FaultRepo) AddHeaderToDatabase(h domains.BlockHeader) error {
+	if f.Kind == "busy" && f.Writes+1 == f.At {
+		return f.withBusyReader("insert", func() error { return f.Headers.AddHeaderToDatabase(h) })
+	}
 	if f.rowFault() {
 		return f.withRowTrigger("insert", "INSERT", "NEW", h.Hash.String(), func() error { return f.Headers.AddHeaderToDatabase(h) })
 	}
@@ -90,6 +118,9 @@ func (f *FaultRepo) AddHeaderToDatabase(h domains.BlockHeader) error {
 
 // UpdateState is a write boundary.
 func (f *FaultRepo) UpdateState(hs []chainhash.Hash, s domains.HeaderState) error {
+	if f.Kind == "busy" && f.Writes+1 == f.At {
+		return f.withBusyReader("update:"+string(s), func() error { return f.Headers.UpdateState(hs, s) })
+	}
 	if f.rowFault() && len(hs) > 0 {
 		return f.withRowTrigger("update:"+string(s), "UPDATE", "OLD", hs[len(hs)-1].String(), func() error { return f.Headers.UpdateState(hs, s) })
 	}
